@@ -12,6 +12,9 @@ R07.d  available_operations() applies the installed filter to the raw ready
 R07.e  purity: a filter (and everything it calls) mutates neither the list
        it is given - which *is* the cached raw ready list - nor anything
        reachable from the dispatcher.
+R07.g  a filter reasons about the list it is given: filter code does not call
+       the dispatcher's ready/available-operation queries
+       (raw_ready_operations, available_operations, current_time, ...).
 R07.f  per-machine tables: an entry stored under machine ``m`` inside
        ``for m in <op>.machines`` is computed from ``m`` (or guarded by a
        test on ``m``) - start and end times are per machine, so a value
@@ -38,7 +41,7 @@ MANIFEST = {
         "name-consistent; available_operations applies the installed filter to "
         "the raw ready list; filters are side-effect free on their inputs; the "
         "per-machine tables the filters build are filled from the machine they "
-        "are indexed by. "
+        "are indexed by; filter code never consults the dispatcher's own ready/available-operation queries. "
         "Not decided: non-emptiness and the exactness of each documented "
         "criterion, which depend on start-time values."
     ),
